@@ -1,47 +1,78 @@
 (* C09 — JSON -> Protobuf (conv/j2p) encodes exactly the value the JSON denotes.
    Statements only; proofs are in proofs/J2PProofs.v.  Model: model/J2P.v
-     pdenote      the message a JSON document denotes for a schema (three-valued: ROk / RErr must be rejected / RUndef outside the property)
-     j2p_spec     = encode_msg o pdenote
-     sax_run      conv/j2p/decode.go as coded: SAX callbacks over the event stream, stack of frames, speculative length bytes
-     denote_top true ...   the strict domain: documents on which the converter as coded is correct (decidable; the
-                           checker evaluates it per case and classifies what falls outside as known findings 901..906) *)
+     pdenote       the message a JSON document denotes for a schema (three-valued: ROk / RErr must be rejected / RUndef outside the property)
+     j2p_spec      = encode_msg o pdenote
+     sax_run       conv/j2p/decode.go as it stands (after the repairs of findings 901..906): SAX callbacks over the event
+                   stream, stack of 256 frames, speculative length bytes
+     denote_top true ...   the strict domain = the property's domain minus the decidable residue the converter does not
+                   reproduce byte for byte: a float32 lexeme that suffers double rounding, an empty array of a packed
+                   field (written as an empty run), payloads >= 2^31 bytes, field numbers out of range (see leaf_agrees /
+                   key_agrees in J2P.v; the checker evaluates them per case)
+     frames_needed the exact number of stack frames a document uses (1 root + 1 per message / array + 2 per map level) *)
 From Coq Require Import ZArith List Bool String Ascii.
 From DG Require Import CaseFormat ProtoWireRef ProtoSpecLen ProtoMsg Json Num J2P J2PProofs.
 Import ListNotations.
 Local Open Scope Z_scope.
 
-(* REFINEMENT.  The SAX machine as coded, run over the event stream of a document of the strict domain nested at most
-   to the converter's stack limit (256 frames: one per message / list level, two per map level), yields exactly
-   encode_msg of the denoted message: all tags, packed runs, map pairs and length prefixes at every depth and for every
-   size, whatever the spare capacity of the buffer contains. *)
+(* REFINEMENT.  The SAX machine, run over the event stream of a strict-domain document that fits the visitor's 256-frame
+   stack, yields exactly encode_msg of the denoted message: all tags, packed runs, map pairs and length prefixes at
+   every depth and for every size, whatever the spare capacity of the buffer contains. *)
 Theorem C09_sax_refines_spec :
-  forall disallow S root ms m junk,
+  forall disallow S root j m junk,
   (9 <= List.length junk)%nat ->
-  denote_top true disallow S root (JObj ms) = ROk m ->
-  (json_depth (JObj ms) <= 128)%nat ->
-  sax_run disallow S root junk (events (JObj ms)) = OOk (encode_msg m).
+  denote_top true disallow S root j = ROk m ->
+  (frames_needed S root j <= 256)%nat ->
+  sax_run disallow S root junk (events j) = OOk (encode_msg m).
 Proof. exact sax_refines_spec. Qed.
 Print Assumptions C09_sax_refines_spec.
 
-(* without map fields every level costs one frame: nesting up to 256 *)
-Theorem C09_sax_refines_spec_nomap :
-  forall disallow S root ms m junk,
-  nomap_schema S = true -> (9 <= List.length junk)%nat ->
-  denote_top true disallow S root (JObj ms) = ROk m ->
-  (json_depth (JObj ms) <= 256)%nat ->
-  sax_run disallow S root junk (events (JObj ms)) = OOk (encode_msg m).
-Proof. exact sax_refines_spec_nomap. Qed.
-Print Assumptions C09_sax_refines_spec_nomap.
+(* ERROR SIDE.  Where the denotation is an error (JSON kind contradicting the field at member / element / map value
+   level, string-spelled numbers, unknown member under DisallowUnknownField, non-object document), at any depth and after
+   any correct prefix, the machine fails. *)
+Theorem C09_sax_error_sound :
+  forall disallow S root j junk,
+  (9 <= List.length junk)%nat ->
+  denote_top true disallow S root j = RErr ->
+  (frames_needed S root j <= 256)%nat ->
+  sax_run disallow S root junk (events j) = OErr.
+Proof. exact sax_error_sound. Qed.
+Print Assumptions C09_sax_error_sound.
 
-(* the strict domain lies inside the property's domain and denotes the same message there *)
+(* ... and conversely: on the strict domain the machine fails IFF the property's denotation is an error, and yields the
+   specified bytes IFF it is a message *)
+Theorem C09_sax_error_iff :
+  forall d S root j junk,
+  (9 <= List.length junk)%nat -> denote_top true d S root j <> RUndef -> (frames_needed S root j <= 256)%nat ->
+  (sax_run d S root junk (events j) = OErr <-> pdenote d S root j = RErr) /\
+  (forall m, pdenote d S root j = ROk m -> sax_run d S root junk (events j) = OOk (encode_msg m)).
+Proof. exact sax_error_iff. Qed.
+Print Assumptions C09_sax_error_iff.
+
+(* the strict domain lies inside the property's domain: same message, same error *)
 Theorem C09_strict_in_domain :
-  forall d S root j m, denote_top true d S root j = ROk m -> pdenote d S root j = ROk m.
-Proof. exact strict_in_domain. Qed.
+  forall d S root j,
+  (forall m, denote_top true d S root j = ROk m -> pdenote d S root j = ROk m) /\
+  (denote_top true d S root j = RErr -> pdenote d S root j = RErr).
+Proof. intros. split; [intro m; apply strict_in_domain | apply strict_error_in_domain]. Qed.
 Print Assumptions C09_strict_in_domain.
 
+(* DEPTH.  256 frames is the code's real limit (push fails when 256 frames are in use: sp is a uint8 that wraps);
+   frames_needed is exact, and at most two frames per JSON nesting level, so depth <= 128 always fits *)
+Theorem C09_stack_limit :
+  (forall st fr, List.length (m_stk st) = 256%nat -> push st fr = MErr) /\
+  (forall S root j, (frames_needed S root j <= 2 * json_depth j)%nat).
+Proof. split; [exact push_full | exact frames_le_depth]. Qed.
+Print Assumptions C09_stack_limit.
+
+Theorem C09_sax_refines_spec_depth :
+  forall disallow S root j m junk,
+  (9 <= List.length junk)%nat -> denote_top true disallow S root j = ROk m -> (json_depth j <= 128)%nat ->
+  sax_run disallow S root junk (events j) = OOk (encode_msg m).
+Proof. exact sax_refines_spec_depth. Qed.
+Print Assumptions C09_sax_refines_spec_depth.
+
 (* the decidable leaf test of the strict domain is automatically true for every integer kind and every in-range plain
-   integer lexeme below 2^63 in magnitude (so it hides no arithmetic hypothesis there; floats: equality of the two
-   roundings, checked per case) *)
+   integer lexeme below 2^63 in magnitude *)
 Theorem C09_int_leaf_agrees :
   forall k lex z,
   is_int_kind k = true -> lex_is_plain_int lex = true -> parse_int lex = Some z ->
@@ -50,8 +81,7 @@ Theorem C09_int_leaf_agrees :
 Proof. exact int_leaf_agrees. Qed.
 Print Assumptions C09_int_leaf_agrees.
 
-(* "accepted by the reference and decodes to exactly that message", on the model: the specified output decodes,
-   with the decoder proved in ProtoMsgProofs, to the denoted message *)
+(* "accepted by the reference and decodes to exactly that message", on the model *)
 Theorem C09_j2p_output_decodes :
   forall d S root j m fuel,
   pdenote d S root j = ROk m -> (depth (VMsg m) <= fuel)%nat ->
@@ -59,14 +89,13 @@ Theorem C09_j2p_output_decodes :
 Proof. exact j2p_output_decodes. Qed.
 Print Assumptions C09_j2p_output_decodes.
 
-(* machine output = specified output, and it decodes to the denoted message *)
 Theorem C09_sax_output_decodes :
-  forall d S root ms m junk fuel,
+  forall d S root j m junk fuel,
   (9 <= List.length junk)%nat ->
-  denote_top true d S root (JObj ms) = ROk m ->
-  (json_depth (JObj ms) <= 128)%nat -> (depth (VMsg m) <= fuel)%nat ->
-  exists b, sax_run d S root junk (events (JObj ms)) = OOk b /\
-            j2p_spec d S root (JObj ms) = ROk b /\ decode_msg S fuel root b = Some m.
+  denote_top true d S root j = ROk m ->
+  (frames_needed S root j <= 256)%nat -> (depth (VMsg m) <= fuel)%nat ->
+  exists b, sax_run d S root junk (events j) = OOk b /\
+            j2p_spec d S root j = ROk b /\ decode_msg S fuel root b = Some m.
 Proof. exact sax_refines_spec_decodes. Qed.
 Print Assumptions C09_sax_output_decodes.
 
@@ -102,97 +131,142 @@ Print Assumptions C09_sax_unknown_member.
 Definition asc (s : string) : list Z := map (fun c => Z.of_nat (nat_of_ascii c)) (list_ascii_of_string s).
 Definition exIn := mk_mdesc (asc "I") [mk_fdesc 1 (asc "a") (asc "a") LSingular (TScalar 5);
                                         mk_fdesc 2 (asc "s") (asc "s") LSingular (TScalar 9);
+                                        mk_fdesc 3 (asc "in_f") (asc "inF") LSingular (TMsg (asc "I"));
                                         mk_fdesc 4 (asc "x") (asc "x") LSingular (TScalar 5)].
 Definition exM := mk_mdesc (asc "M") [mk_fdesc 1 (asc "a") (asc "a") LSingular (TScalar 5);
                                        mk_fdesc 3 (asc "in_f") (asc "inF") LSingular (TMsg (asc "I"));
                                        mk_fdesc 4 (asc "u") (asc "u") LSingular (TScalar 4);
                                        mk_fdesc 5 (asc "l") (asc "l") (LRepeated true) (TScalar 5);
+                                       mk_fdesc 6 (asc "mu") (asc "mu") (LMap 13) (TScalar 5);
+                                       mk_fdesc 7 (asc "mm") (asc "mm") (LMap 9) (TMsg (asc "I"));
+                                       mk_fdesc 8 (asc "e") (asc "e") LSingular (TScalar 14);
+                                       mk_fdesc 9 (asc "by") (asc "by") LSingular (TScalar 12);
                                        mk_fdesc 10 (asc "lm") (asc "lm") (LRepeated false) (TMsg (asc "I"));
                                        mk_fdesc 11 (asc "x") (asc "x") LSingular (TScalar 5);
+                                       mk_fdesc 12 (asc "f") (asc "f") LSingular (TScalar 2);
+                                       mk_fdesc 13 (asc "lu") (asc "lu") (LRepeated false) (TScalar 5);
                                        mk_fdesc 14 (asc "si") (asc "si") LSingular (TScalar 17)].
 Definition exS : schema := [exM; exIn].
-(* the same with maps and an enum field *)
-Definition exM2 := mk_mdesc (asc "M") (md_fields exM ++ [mk_fdesc 6 (asc "mu") (asc "mu") (LMap 13) (TScalar 5);
-                                                          mk_fdesc 7 (asc "mm") (asc "mm") (LMap 9) (TMsg (asc "I"));
-                                                          mk_fdesc 8 (asc "e") (asc "e") LSingular (TScalar 14)]).
-Definition exS2 : schema := [exM2; exIn].
 Definition num (s : string) := JNum (asc s).
 Definition obj (l : list (string * json)) := JObj (map (fun kv => (asc (fst kv), snd kv)) l).
+Definition M := asc "M".
+(* property denotation, strict denotation, machine outcome, and what the proved decoder makes of the machine's output *)
+Definition both (j : json) :=
+  (pdenote false exS M j, denote_top true false exS M j, j2p_machine false exS M j,
+   match j2p_machine false exS M j with OOk b => decode_top exS M b | _ => None end).
+Local Open Scope string_scope.
 
-(* non-vacuity of the refinement theorems: a document with scalar, zig-zag, nested, packed and repeated-message members *)
-Definition exDoc := obj [("a", num "150"); ("unknown", JArr [JNull; obj [("q", JNull)]]);
-                         ("inF", obj [("s", JStr (asc "hi")); ("a", num "-1")]); ("si", num "-3");
-                         ("l", JArr [num "1"; num "300"]); ("lm", JArr [obj [("a", num "1")]; obj [("x", num "2")]])]%string.
+(* non-vacuity of the refinement theorems: scalar, zig-zag, nested, packed, repeated-message, map (scalar and
+   message values), enum, bytes, null and unknown members in one document *)
+Definition exDoc := obj [("a", num "150"); ("unknown", JArr [JNull; obj [("q", JNull)]]); ("x", JNull);
+                         ("inF", obj [("s", JStr (asc "hi")); ("a", num "-1"); ("inF", obj [])]); ("si", num "-3");
+                         ("l", JArr [num "1"; num "300"]);
+                         ("lm", JArr [obj [("a", num "1")]; obj []]);
+                         ("mu", obj [("7", num "1"); ("3000000000", num "-2")]);
+                         ("mm", obj [("k", obj [("a", num "1")]); ("", obj [])]);
+                         ("e", num "2"); ("by", JStr (asc "AQI=")); ("u", num "18446744073709551615")].
 Example C09_refinement_hypotheses_satisfiable :
-  nomap_schema exS = true /\
-  denote_top true false exS (asc "M") exDoc
-  = ROk [(1, VScalar 5 150); (3, VMsg [(2, VBytes 9 [104; 105]); (1, VScalar 5 (-1))]); (14, VScalar 17 (-3));
-         (5, VList true [VScalar 5 1; VScalar 5 300]); (10, VList false [VMsg [(1, VScalar 5 1)]; VMsg [(4, VScalar 5 2)]])] /\
-  j2p_machine false exS (asc "M") exDoc
-  = OOk [8; 150; 1; 26; 15; 18; 2; 104; 105; 8; 255; 255; 255; 255; 255; 255; 255; 255; 255; 1; 112; 5; 42; 3; 1; 172; 2; 82; 2; 8; 1; 82; 2; 32; 2].
-Proof. vm_compute. repeat split; reflexivity. Qed.
-
-(* ... and one with maps (scalar and message values) *)
-Definition exDocMap := obj [("mu", obj [("7", num "1"); ("300", num "-2")]);
-                            ("mm", obj [("k", obj [("a", num "1")]); ("", obj [("s", JStr (asc "v"))])]); ("a", num "5")]%string.
-Example C09_refinement_with_maps :
-  nomap_schema exS2 = false /\
-  match denote_top true false exS2 (asc "M") exDocMap, j2p_machine false exS2 (asc "M") exDocMap with
-  | ROk m, OOk b => bytes_eqb b (encode_msg m) && (Nat.eqb (List.length m) 3) &&
-                    match decode_top exS2 (asc "M") b with Some m' => pval_eqv (VMsg m) (VMsg m') | None => false end
+  frames_needed exS M exDoc = 4%nat /\
+  match denote_top true false exS M exDoc, j2p_machine false exS M exDoc with
+  | ROk m, OOk b => bytes_eqb b (encode_msg m) && (Nat.eqb (List.length m) 10) &&
+                    match decode_top exS M b with Some m' => pval_eqv (VMsg m) (VMsg m') | None => false end
   | _, _ => false
-  end = true /\
-  j2p_machine false exS2 (asc "M") exDocMap
-  = OOk [50; 4; 8; 7; 16; 1; 50; 14; 8; 172; 2; 16; 254; 255; 255; 255; 255; 255; 255; 255; 255; 1;
-         58; 7; 10; 1; 107; 18; 2; 8; 1; 58; 7; 10; 0; 18; 3; 18; 1; 118; 8; 5].
+  end = true.
+Proof. vm_compute. split; reflexivity. Qed.
+
+(* non-vacuity of the error theorems: the error sits three levels down, after correct members *)
+Example C09_error_hypotheses_satisfiable :
+  denote_top true false exS M (obj [("a", num "1"); ("mm", obj [("k", obj [("a", num "1"); ("inF", obj [("s", num "5")])])])]) = RErr /\
+  j2p_machine false exS M (obj [("a", num "1"); ("mm", obj [("k", obj [("a", num "1"); ("inF", obj [("s", num "5")])])])]) = OErr /\
+  denote_top true true exS M (obj [("a", num "1"); ("lm", JArr [obj [("nosuch", JNull)]])]) = RErr /\
+  j2p_machine true exS M (obj [("a", num "1"); ("lm", JArr [obj [("nosuch", JNull)]])]) = OErr /\
+  j2p_machine false exS M (obj [("a", num "1"); ("lm", JArr [obj [("nosuch", JNull)]])]) = OOk [8; 1; 82; 0].
 Proof. vm_compute. repeat split; reflexivity. Qed.
 
-(* the recorded defects really contradict the specification (machine as coded vs. denotation), one witness each *)
-Example C09_finding_901_null_refuted :
-  pdenote false exS (asc "M") (obj [("a", JNull)]%string) = ROk [] /\
-  j2p_machine false exS (asc "M") (obj [("a", JNull)]%string) = OErr /\
-  j2p_machine false exS (asc "M") (obj [("a", num "1"); ("x", JNull); ("inF", obj [("a", num "1")])]%string) = OPanic.
+(* the six repaired findings: machine = specification now (regression witnesses of 901..906) *)
+Example C09_fixed_901_null :
+  both (obj [("a", JNull)]) = (ROk [], ROk [], OOk [], Some []) /\
+  j2p_machine false exS M (obj [("a", num "1"); ("x", JNull); ("inF", obj [("a", num "1")])]) = OOk [8; 1; 26; 2; 8; 1].
+Proof. vm_compute. split; reflexivity. Qed.
+Example C09_fixed_902_empty :
+  both (obj [("inF", obj []); ("x", num "1")])
+  = (ROk [(3, VMsg []); (11, VScalar 5 1)], ROk [(3, VMsg []); (11, VScalar 5 1)], OOk [26; 0; 88; 1], Some [(3, VMsg []); (11, VScalar 5 1)]) /\
+  both (obj [("lm", JArr []); ("mu", obj []); ("x", num "1")])
+  = (ROk [(11, VScalar 5 1)], ROk [(11, VScalar 5 1)], OOk [88; 1], Some [(11, VScalar 5 1)]).
+Proof. vm_compute. split; reflexivity. Qed.
+Example C09_fixed_903_mapkey :
+  j2p_machine false exS M (obj [("mu", obj [("3000000000", num "1")])]) = OOk [50; 8; 8; 128; 188; 193; 150; 11; 16; 1] /\
+  j2p_spec false exS M (obj [("mu", obj [("3000000000", num "1")])]) = ROk [50; 8; 8; 128; 188; 193; 150; 11; 16; 1] /\
+  both (obj [("mu", obj [("abc", num "1")])]) = (RUndef, RUndef, OErr, None).
 Proof. vm_compute. repeat split; reflexivity. Qed.
-
-Example C09_finding_902_empty_refuted :
-  j2p_spec false exS (asc "M") (obj [("inF", obj []); ("x", num "1")]%string) = ROk [26; 0; 88; 1] /\
-  j2p_machine false exS (asc "M") (obj [("inF", obj []); ("x", num "1")]%string) = OOk [26; 2; 32; 1] /\
-  j2p_spec false exS (asc "M") (obj [("l", JArr []); ("x", num "1")]%string) = ROk [88; 1] /\
-  j2p_machine false exS (asc "M") (obj [("l", JArr []); ("x", num "1")]%string) = OOk [42; 1; 1] /\
-  j2p_machine false exS2 (asc "M") (obj [("mu", obj [])]%string) = OPanic.
+Example C09_fixed_904_uint64 :
+  j2p_machine false exS M (obj [("u", num "18446744073709551615")]) = OOk [32; 255; 255; 255; 255; 255; 255; 255; 255; 255; 1] /\
+  j2p_spec false exS M (obj [("u", num "18446744073709551615")]) = ROk [32; 255; 255; 255; 255; 255; 255; 255; 255; 255; 1].
+Proof. vm_compute. split; reflexivity. Qed.
+Example C09_fixed_905_kind :
+  both (obj [("a", JBool true)]) = (RErr, RErr, OErr, None) /\ both (obj [("l", num "1")]) = (RErr, RErr, OErr, None) /\
+  both (obj [("a", obj [("q", num "1")])]) = (RErr, RErr, OErr, None) /\ both (JArr [num "1"]) = (RErr, RErr, OErr, None) /\
+  both (obj [("a", JStr (asc "1"))]) = (RErr, RErr, OErr, None).       (* string-spelled number: an error on both sides *)
 Proof. vm_compute. repeat split; reflexivity. Qed.
+Example C09_fixed_906_enum :
+  both (obj [("e", num "1")]) = (ROk [(8, VScalar 14 1)], ROk [(8, VScalar 14 1)], OOk [64; 1], Some [(8, VScalar 14 1)]).
+Proof. vm_compute. reflexivity. Qed.
 
-Example C09_finding_903_mapkey_refuted :
-  j2p_spec false exS2 (asc "M") (obj [("mu", obj [("3000000000", num "1")])]%string) = ROk [50; 8; 8; 128; 188; 193; 150; 11; 16; 1] /\
-  j2p_machine false exS2 (asc "M") (obj [("mu", obj [("3000000000", num "1")])]%string) = OOk [50; 8; 8; 255; 255; 255; 255; 7; 16; 1].
+(* QUIRKS: documents outside the property's domain (pdenote = RUndef) on which the code is laxer or stricter than the
+   protobuf JSON mapping.  Each line is replayed on the implementation by the checker (hand-written documents of class
+   9x: the converter must do exactly what the machine does here, verdict 107 otherwise). *)
+Example C09_quirk_integers_wrapped_or_truncated :       (* laxer: out-of-range / fractional numbers for int32 are converted with Go casts *)
+  both (obj [("a", num "4294967297")]) = (RUndef, RUndef, OOk [8; 1], Some [(1, VScalar 5 1)]) /\
+  both (obj [("a", num "1.5")]) = (RUndef, RUndef, OOk [8; 1], Some [(1, VScalar 5 1)]) /\
+  both (obj [("u", num "1e2")]) = (RUndef, RUndef, OErr, None).                               (* stricter: exponent spelling only for int32/int64 *)
 Proof. vm_compute. repeat split; reflexivity. Qed.
-
-Example C09_finding_904_uint64_refuted :
-  j2p_spec false exS (asc "M") (obj [("u", num "18446744073709551615")]%string) = ROk [32; 255; 255; 255; 255; 255; 255; 255; 255; 255; 1] /\
-  j2p_machine false exS (asc "M") (obj [("u", num "18446744073709551615")]%string) = OErr.
+Example C09_quirk_null_element_and_map_value :          (* laxer: a null element is dropped, a null map value is the default value *)
+  both (obj [("l", JArr [num "1"; JNull; num "2"])]) = (RUndef, RUndef, OOk [42; 2; 1; 2], Some [(5, VList true [VScalar 5 1; VScalar 5 2])]) /\
+  both (obj [("mu", obj [("1", JNull)])]) = (RUndef, RUndef, OOk [50; 2; 8; 1], Some [(6, VMap [(KInt 13 1, VScalar 5 0)])]).
+Proof. vm_compute. split; reflexivity. Qed.
+Example C09_quirk_duplicate_members :                   (* every occurrence is emitted; the decoder's rules decide: last wins / merge / concatenate, as protobuf-go *)
+  both (obj [("a", num "1"); ("a", num "2")]) = (RUndef, RUndef, OOk [8; 1; 8; 2], Some [(1, VScalar 5 2)]) /\
+  both (obj [("inF", obj [("a", num "1")]); ("inF", obj [("s", JStr (asc "x"))])])
+  = (RUndef, RUndef, OOk [26; 2; 8; 1; 26; 3; 18; 1; 120], Some [(3, VMsg [(1, VScalar 5 1); (2, VBytes 9 [120])])]) /\
+  both (obj [("l", JArr [num "1"]); ("l", JArr [num "2"])]) = (RUndef, RUndef, OOk [42; 1; 1; 42; 1; 2], Some [(5, VList true [VScalar 5 1; VScalar 5 2])]).
 Proof. vm_compute. repeat split; reflexivity. Qed.
-
-Example C09_finding_905_kind_refuted :
-  pdenote false exS (asc "M") (obj [("a", JBool true)]%string) = RErr /\
-  j2p_machine false exS (asc "M") (obj [("a", JBool true)]%string) = OOk [8; 1] /\
-  pdenote false exS (asc "M") (obj [("l", num "1")]%string) = RErr /\
-  j2p_machine false exS (asc "M") (obj [("l", num "1")]%string) = OOk [1] /\
-  j2p_machine false exS (asc "M") (obj [("a", obj [("q", num "1")])]%string) = OPanic /\
-  j2p_machine false exS (asc "M") (JArr [num "1"]) = OPanic.
+Example C09_quirk_enum_by_name_and_base64_variants :    (* stricter: enum names, unpadded and URL-safe base64 are rejected *)
+  both (obj [("e", JStr (asc "E1"))]) = (RUndef, RUndef, OErr, None) /\
+  both (obj [("by", JStr (asc "AQI="))]) = (ROk [(9, VBytes 12 [1; 2])], ROk [(9, VBytes 12 [1; 2])], OOk [74; 2; 1; 2], Some [(9, VBytes 12 [1; 2])]) /\
+  both (obj [("by", JStr (asc "AQI"))]) = (RUndef, RUndef, OErr, None) /\
+  both (obj [("by", JStr (asc "-_-_"))]) = (RUndef, RUndef, OErr, None).
 Proof. vm_compute. repeat split; reflexivity. Qed.
+Example C09_quirk_map_key_spelling :                    (* laxer: strconv accepts leading zeros *)
+  both (obj [("mu", obj [("007", num "1")])]) = (RUndef, RUndef, OOk [50; 4; 8; 7; 16; 1], Some [(6, VMap [(KInt 13 7, VScalar 5 1)])]).
+Proof. vm_compute. reflexivity. Qed.
+Example C09_quirk_declared_unpacked :                   (* outside the modelled schemas: a numeric list declared [packed=false] is written one record per element *)
+  both (obj [("lu", JArr [num "1"; num "300"])])
+  = (RUndef, RUndef, OOk [104; 1; 104; 172; 2], Some [(13, VList false [VScalar 5 1; VScalar 5 300])]).
+Proof. vm_compute. reflexivity. Qed.
+(* the residue of the strict domain: same message, other bytes / other rounding (drift 1 / 21 in the checker) *)
+Example C09_residue_empty_packed_and_float_rounding :
+  both (obj [("l", JArr []); ("x", num "1")]) = (ROk [(11, VScalar 5 1)], RUndef, OOk [42; 0; 88; 1], Some [(11, VScalar 5 1)]) /\
+  both (obj [("f", num "1.00000005960464477539062500001")])
+  = (ROk [(12, VScalar 2 1065353217)], RUndef, OOk [101; 0; 0; 128; 63], Some [(12, VScalar 2 1065353216)]).
+Proof. vm_compute. split; reflexivity. Qed.
 
-Example C09_finding_906_enum_refuted :
-  j2p_spec false exS2 (asc "M") (obj [("e", num "1")]%string) = ROk [64; 1] /\
-  j2p_machine false exS2 (asc "M") (obj [("e", num "1")]%string) = OErr.
+(* THE STACK LIMIT is the code's: a chain of nested messages uses 1 + n frames; 255 levels convert, the 256th push fails *)
+Fixpoint chain (n : nat) : json := match n with O => obj [("a", num "1")] | Datatypes.S k => obj [("inF", chain k)] end.
+Example C09_stack_limit_exact :
+  frames_needed exS M (chain 255) = 256%nat /\ frames_needed exS M (chain 256) = 257%nat /\
+  match denote_top true false exS M (chain 255), j2p_machine false exS M (chain 255) with
+  | ROk m, OOk b => bytes_eqb b (encode_msg m) | _, _ => false end = true /\
+  match denote_top true false exS M (chain 256) with ROk _ => true | _ => false end = true /\
+  j2p_machine false exS M (chain 256) = OErr.
 Proof. vm_compute. repeat split; reflexivity. Qed.
 
 (* size boundaries: a nested payload of 127 / 128 / 16383 / 16384 bytes at depth 2 gets the 1 / 2 / 2 / 3-byte prefix *)
 Definition pad (n : Z) : json := JStr (repeat 97 (Z.to_nat n)).
-Definition nest2 (n : Z) := obj [("inF", obj [("s", pad n)])]%string.
+Definition nest2 (n : Z) := obj [("inF", obj [("s", pad n)])].
 Example C09_length_prefix_boundaries :
-  (forall n, In n [125; 126; 127; 128; 16380; 16381; 16382; 16383] ->
-     match denote_top true false exS (asc "M") (nest2 n), j2p_machine false exS (asc "M") (nest2 n) with
-     | ROk m, OOk b => bytes_eqb b (encode_msg m) && match decode_top exS (asc "M") b with Some m' => pval_eqv (VMsg m) (VMsg m') | None => false end
+  (forall n, In n [125; 126; 127; 128; 16380; 16381; 16382; 16383]%Z ->
+     match denote_top true false exS M (nest2 n), j2p_machine false exS M (nest2 n) with
+     | ROk m, OOk b => bytes_eqb b (encode_msg m) && match decode_top exS M b with Some m' => pval_eqv (VMsg m) (VMsg m') | None => false end
      | _, _ => false
      end = true).
 Proof. intros n Hn. cbn [In] in Hn. repeat (destruct Hn as [<-|Hn]; [vm_compute; reflexivity|]). contradiction. Qed.
